@@ -888,10 +888,31 @@ def gen_dependent_sequence(r):
     return steps, f"{kind}:{flavour}"
 
 
+def forget_dependencies(steps):
+    """a sequence starts from a cache that holds none of the definitions it names (`dep<n>`): what an earlier
+    run — or a shrinking attempt that kept the defining step — left there must not make a later one pass or fail"""
+    import re
+
+    import koreo_util as ku
+    from koreo import cache
+
+    names = set(re.findall(r"dep\d+", dumps_big(steps, default=str)))
+    if not names:
+        return
+
+    async def go():
+        for nm in names:
+            for kind in ("ValueFunction", "ResourceFunction", "Workflow"):
+                await cache.delete_from_cache(resource_class=preparer(kind)[0], cache_key=nm)
+
+    ku.run(go())
+
+
 def run_sequence(steps) -> list:
     """the steps one after the other in one registry lifetime (whatever was prepared stays referenced)"""
     global _KEEP
     registry_cleanup()
+    forget_dependencies(steps)
     _KEEP = []
     try:
         return [impl_prepare(st["resource"], st["spec"], via_cache=st.get("via_cache", False), isolate=False,
@@ -1017,7 +1038,7 @@ def run(tier: str) -> int:
     quick = tier == "quick"
     run_corpus(ck)
     t0 = time.time()
-    run_expressions(ck, drv, 3000 if quick else 50000, r)
+    run_expressions(ck, drv, 2600 if quick else 50000, r)
     ck.notes.append(f"expression stream: {time.time() - t0:.1f}s")
     t0 = time.time()
     run_specs(ck, drv, 3000 if quick else 100000, r)
